@@ -191,6 +191,7 @@ def execute(loaded, ops, truth, hooks=None, bodies=None, event_budget=20000):
     try:
         ex = Executor(loaded, run)
         outs = [ex.do(op) for op in ops]
+        run.instances = ex.inst
     finally:
         V.end()
     return run.log, outs, run
